@@ -961,6 +961,10 @@ class Executor:
             frame.visits[frame.block] = n
             if n > self.loop_bound:
                 # unwinding assertion: this path must be infeasible, else the bound is too small
+                if getattr(self, "unwind_assume", False):
+                    # stated bound: deeper iterations are outside the claim (recorded in the obligation's bounds)
+                    st.status = "infeasible"
+                    return []
                 if self.feasible(st):
                     self.unwind_hits.append((frame.body.name, frame.block))
                     st.status = "unwind"
